@@ -159,7 +159,7 @@ def _mc(P):
     return np.inf if mc == 'inf' else None if mc == 'none' else mc
 
 
-def _build(case, level, pol):
+def _build(case, level, pol, cal_obj=None):
     """one realisation of the stimulus of the case; returns a 1-D float array"""
     from psiaudio import stim
     t, fs, P = case['type'], case['fs'], case.get('par', {})
@@ -169,7 +169,7 @@ def _build(case, level, pol):
         pol = {'int': int, 'float': float, 'npint': np.int8}[K.get('pol', 'int')](pol)
     if K.get('fs') == 'int' and fs == int(fs):
         fs = int(fs)
-    cal = _mkcal(case['cal'])
+    cal = _mkcal(case['cal']) if cal_obj is None else cal_obj
     kw = {} if pol is None else {'polarity': pol}
     if t == 'tone':
         return stim.tone(fs, P['f'], level, P['phase'], calibration=cal, samples=P['n'], offset=P.get('offset', 0), **kw)
@@ -337,6 +337,22 @@ def _impl_stim(case):
             twin = dict(case, type='tone' if case['type'] == 'tone_duration' else 'sam_tone',
                         par=dict(P, use_duration=False, offset=0))
             res['twin_equal'] = bool(np.array_equal(y1, np.asarray(_build(twin, L, pol), dtype=float)))
+        if case.get('regain') is not None and case['cal'] and case['cal']['kind'] in ('flat', 'interp', 'point'):
+            # ONE calibration object, used, then given another fixed gain (set_fixed_gain or plain assignment), used
+            # again: the result is that of a fresh calibration built with that gain (nothing about the earlier use
+            # may be remembered by the calibration or by anything keyed on it)
+            g = case['regain']
+            shared = _mkcal(case['cal'])
+            _build(case, L, pol, cal_obj=shared)
+            if case.get('regain_assign'):
+                shared.fixed_gain = g
+            else:
+                shared.set_fixed_gain(g)
+            a1 = np.array(_build(case, L, pol, cal_obj=shared), dtype=float)
+            a2 = np.array(_build(case, L, pol, cal_obj=_mkcal(dict(case['cal'], g=g))), dtype=float)
+            res['regain_ok'] = bool(a1.shape == a2.shape and np.array_equal(a1, a2))
+            if not res['regain_ok'] and a1.shape == a2.shape and np.any(a2):
+                res['regain_db'] = float(20 * np.log10(max(np.sqrt(np.mean(a1 ** 2)), 1e-300) / np.sqrt(np.mean(a2 ** 2))))
         res['level'] = _measure(case, y1)
         res['crest'] = float(np.max(np.abs(y1)) / np.sqrt(np.mean(y1 ** 2))) if len(y1) and np.any(y1) else None
         if case['type'] in ('bandlimited_noise', 'BandlimitedNoiseFactory'):
@@ -767,6 +783,9 @@ def _oracle_stim(case, res):
         return f'{tag}: raised {res["err"]}: {res["msg"]}'
     if not res['finite']:
         return f'{tag}: samples are not finite'
+    if res.get('regain_ok') is False:
+        return (f'{tag}: after the fixed gain of an already used calibration was set to {case["regain"]} dB the stimulus differs '
+                f'from the one through a fresh calibration with that gain (level off by {res.get("regain_db")} dB)')
     if len(set(res['n'])) != 1 or res['n'][0] == 0:
         return f'{tag}: the number of samples changes with the level: {res["n"]}'
     tol = _level_tol(case, res)
@@ -1027,7 +1046,11 @@ def _stim_case(rng, t, which, fs=None):
         L, d = float(rng.choice([0, 0, rng.randint(-40, 140)])), float(rng.choice([-7, 6, 13]))
     elif K['level'] == 'np32':
         L, d = rng.randint(-80, 280) / 2, rng.choice([-6.5, 6.0, 13.5])
-    return {'kind': 'stim', 'type': t, 'fs': fs, 'cal': cal, 'L': L, 'd': d, 'par': P, 'kinds': K}
+    c = {'kind': 'stim', 'type': t, 'fs': fs, 'cal': cal, 'L': L, 'd': d, 'par': P, 'kinds': K}
+    if cal and cal['kind'] in ('flat', 'interp', 'point') and rng.random() < 0.5:
+        c['regain'] = rng.choice([-20.0, 6.0, 3.5, 0.0, 12.0])
+        c['regain_assign'] = rng.random() < 0.4
+    return c
 
 
 # which calibrations each stimulus can be generated with (None = no calibration argument / level as amplitude)
